@@ -12,11 +12,13 @@ package mq
 //@   requires 0 <= i
 //@   ensures result == specVbWidth(uint(v))
 //@   ensures 1 <= result && result <= 10
+//@   ensures forall k in 0..result: i + k < len(data) ==> data[i+k] == specVbByte(uint(v), k)      #C15 #C02
 //@   assigns data[i:i+specVbWidth(uint(v))]
 //@   loop 0:
 //@     invariant n <= i && i - n <= 9
 //@     invariant x == specShr7(uint(v), i - n)
 //@     invariant i - n > 0 ==> x > 0
+//@     invariant forall k in 0..i-n: n + k < len(data) ==> data[n+k] == specVbByte(uint(v), k)     #C15 #C02
 //@     decreases 10 - (i - n)
 
 //@ func (*vbint).UnmarshalBinary
@@ -24,10 +26,18 @@ package mq
 //@   ensures result != nil ==> istype(result, *Malformed) && payload(result, *Malformed) != nil && unchanged(*v)
 //@   ensures result == nil ==> len(data) >= 1 && uint(*v) <= 268435455
 //@   ensures len(data) == 0 ==> result != nil
+//@   ensures specVbOK(len(data), data[0], data[1], data[2], data[3]) ==> result == nil && uint(*v) == specVbValue(data[0], data[1], data[2], data[3])   #C15 #C03
+//@   ensures !specVbOK(len(data), data[0], data[1], data[2], data[3]) ==> result != nil                                                               #C15 #C09
 //@   loop 0:
 //@     invariant -1 <= rangeindex && rangeindex <= 3 && rangeindex < len(data)
 //@     invariant multiplier == specPow128(rangeindex + 1)
 //@     invariant value < multiplier
+//@     invariant forall k in 0..rangeindex+1: data[k] & 128 != 0                                    #C15 #C03 #C09
+//@     invariant rangeindex == -1 ==> value == 0                                                    #C15 #C03
+//@     invariant rangeindex == 0 ==> value == uint(data[0] & 127)                                   #C15 #C03
+//@     invariant rangeindex == 1 ==> value == uint(data[0] & 127) + uint(data[1] & 127) * 128       #C15 #C03
+//@     invariant rangeindex == 2 ==> value == uint(data[0] & 127) + uint(data[1] & 127) * 128 + uint(data[2] & 127) * 16384   #C15 #C03
+//@     invariant rangeindex == 3 ==> value == uint(data[0] & 127) + uint(data[1] & 127) * 128 + uint(data[2] & 127) * 16384 + uint(data[3] & 127) * 2097152   #C15 #C03
 //@     decreases 4 - rangeindex
 
 //@ func (*bits).UnmarshalBinary
@@ -369,3 +379,17 @@ package mq
 //@   loop 0:
 //@     invariant n <= i
 //@     decreases len(p.reasonCodes) - rangeindex
+
+// ---------------------------------------------------------------- lemmas over the spec functions
+
+//@ func lemmaVbRoundTrip
+//@   requires v <= 268435455
+//@   -- stepping stones (each clause is assumed once proved): one byte at a time across the Int / bit-vector bridge
+//@   ensures uint(specVbByte(v, 0)) % 128 == specShr7(v, 0) % 128 && (uint(specVbByte(v, 0)) < 128) == (specShr7(v, 0) < 128)     #C15
+//@   ensures uint(specVbByte(v, 1)) % 128 == specShr7(v, 1) % 128 && (uint(specVbByte(v, 1)) < 128) == (specShr7(v, 1) < 128)     #C15
+//@   ensures uint(specVbByte(v, 2)) % 128 == specShr7(v, 2) % 128 && (uint(specVbByte(v, 2)) < 128) == (specShr7(v, 2) < 128)     #C15
+//@   ensures uint(specVbByte(v, 3)) % 128 == specShr7(v, 3) % 128 && (uint(specVbByte(v, 3)) < 128) == (specShr7(v, 3) < 128)     #C15
+//@   ensures specVbOK(specVbWidth(v), specVbByte(v, 0), specVbByte(v, 1), specVbByte(v, 2), specVbByte(v, 3))                      #C15
+//@   ensures specVbValue(specVbByte(v, 0), specVbByte(v, 1), specVbByte(v, 2), specVbByte(v, 3)) == v                               #C15
+//@   ensures specVbLen(specVbByte(v, 0), specVbByte(v, 1), specVbByte(v, 2), specVbByte(v, 3)) == specVbWidth(v)                    #C15
+//@   ensures specVbWidth(v) <= 4                                                                                                    #C15
